@@ -111,7 +111,8 @@ proof {
 
 @fn src/filedb/inner/htx.rs | - | check_htxf_header
 @opts refusal
-@serves C13
+@refusal-implies !(rd(old(file)@.bytes, 0, 8) == sig_h() && rd(old(file)@.bytes, 8, 8) == signature2@ && htx_stored_n(old(file)@.bytes) != 0)
+@serves C13 C02
 @requires
 old(file)@.bytes.len() >= 24
 @ensures
